@@ -319,7 +319,9 @@ func main() {
 	seed := flag.Int64("seed", 1, "")
 	mode := flag.String("mode", "codec", "codec | c09 | c10 | c13 | c11 | c06 | c07")
 	aux := flag.String("aux", "", "second input file of the mode")
+	order := flag.Int("order", 0, "c09: rotation of the flavour order")
 	flag.Parse()
+	flavourOrder = *order
 	out = bufio.NewWriterSize(os.Stdout, 1<<20)
 	defer out.Flush()
 	var enums hc.EnumTable
